@@ -23,6 +23,9 @@ class Records:
         self.maints = [i['id'] for i in items if i['kind'] == 'maintainer']
         self.resources = sorted(ctx.spec.get('resources', {}))
         self.n_recv = self.n_fin = self.n_hooks = self.n_script = 0
+        self.n_sched = 0
+        self.scheds = {i['id']: i for i in items if i['kind'] == 'scheduler'}
+        self.sched_rounds = {sid: [] for sid in self.scheds}
         self.occ = {}            # (label, sub) -> occurrences seen on the independent channel
         self.src_prev = {s: None for s in self.sources}
         self.sink_leaves = {k: 0 for k in self.sinks}
@@ -164,6 +167,20 @@ class Records:
                 self.bump('enter_queue', op['maint'])
         if head is not None and not head.cancelled and action_name(head.action) == '_fail':
             self.bump('device_failure', ctx.dev_id(action_owner(head.action)))
+        # schedule records: one per action round seen through the override action of the registered devices
+        while self.n_sched < len(log.sched_calls):
+            t, sid, obj, targ, state, ser = log.sched_calls[self.n_sched]
+            self.n_sched += 1
+            rounds = self.sched_rounds[sid]
+            if not rounds or rounds[-1][2] != ser or rounds[-1][3] == obj:
+                rounds.append((t, state, ser, obj))
+        for sid, rounds in self.sched_rounds.items():
+            recs = data.get('schedule_update', {}).get(sid, [])
+            if [(r[0], r[1]) for r in recs] != [(r[0], r[1]) for r in rounds]:
+                ctx.report('schedule_record', f'schedule_update[{sid}] records {recs[-3:]} ({len(recs)}), action rounds '
+                           f'seen {[(r[0], r[1]) for r in rounds][-3:]} ({len(rounds)})')
+                return
+            ctx.count('schedule_record_checks')
         for s_id in self.sources:
             out = cen.slots[s_id]['out']
             po = self.src_prev[s_id]
